@@ -56,6 +56,12 @@ var ruleTable = []RuleDef{
 	{"R-FEEDMAP-WRITERS", (*Model).ruleFEEDWRITERS, "a feed-registry entry is only ever updated by appending one new feed to the existing entry"},
 	{"R-LOOPVAR", (*Model).ruleLOOPVAR, "with pre-1.22 loop-variable semantics (go.mod), no goroutine started inside a loop captures the loop variable"},
 	{"R-FEED-START", (*Model).ruleFEEDSTART, "on every path a started feed is registered for live events or has its end marker queued"},
+	{"R-TOMB-XATTRS", (*Model).ruleTOMBXATTRS, "a tombstoning statement binds xattrs that were filtered after being read (or are known empty), never the row's xattrs as read"},
+	{"R-ERR-OVERWRITE", (*Model).ruleERROVERWRITE, "an error stored in a variable is examined or used before the variable is assigned again (no failure of one step or loop iteration is replaced by the outcome of a later one)"},
+	{"R-OPTS-CARRY", (*Model).ruleOPTSCARRY, "a function that receives an options struct hands the caller's options on to the function doing the work (same pointer or complete copy), never nil or a partial fresh struct"},
+	{"R-BACKFILL-COND", (*Model).ruleBACKFILLCOND, "whether the backfill snapshot is taken depends only on the feed arguments and on errors, never on stored state"},
+	{"R-VIEW-PARAMS", (*Model).ruleVIEWPARAMS, "every view query option honoured today (key range and its inclusive flags, descending, limit, include_docs) is read by the view query path"},
+	{"R-OPEN-ERR", (*Model).ruleOPENERR, "once the open function has registered the bucket no return carries an error (its cleanup-on-error deletes the store)"},
 	{"R-TIMER", (*Model).ruleTIMER, "a new expiry timer is created only when the manager holds none"},
 }
 
